@@ -348,7 +348,7 @@ Status findSequencesOnDisk(FileSequences &seqs,
         name.assign(&(d_ent->d_name[0]));
 
         // Is it a hidden file?
-        if (hiddenFiles && name[0] == '.' ) {
+        if (!hiddenFiles && name[0] == '.' ) {
             continue;
         }
 
